@@ -21,7 +21,7 @@ from . import c11, c12, c14
 
 ID = "C18"
 LEVEL = "exploration"
-RUNS = {"quick": 4000, "thorough": 80000}
+RUNS = {"quick": 10000, "thorough": 150000}
 
 BYTES_BAD = ["str", "int", "none", "bytearray", "tuple", "memoryview"]
 NIB_BAD = {
